@@ -602,6 +602,10 @@ class Evaluator:
                 k = sb.value()
                 if k and k & (k - 1) == 0:
                     return op_shl(sa_, k.bit_length() - 1)
+            if isinstance(op, ast.Mod) and sb.is_const():
+                k = sb.value()
+                if k and k & (k - 1) == 0:  # x % 2**n: the low n bits
+                    return op_and(sa_, SymInt.const(k - 1)) if k > 1 else SymInt.const(0)
             raise Unsupported(f"operator {type(op).__name__} on symbolic values")
         if isinstance(a, SymBytes) and isinstance(b, SymBytes) and isinstance(op, ast.Add):
             return SymBytes(a.items + b.items)
